@@ -165,11 +165,110 @@ def declared_names(func):
     return out
 
 
+_ANCHOR_TABLE = None
+_ANCHOR_RECORD = {}
+
+
+def _slot(parent, child):
+    for k, v in parent.items():
+        if v is child:
+            return k
+        if isinstance(v, list):
+            for i, x in enumerate(v):
+                if x is child:
+                    return "%s[%d]" % (k, i)
+    return "?"
+
+
+def fingerprints(func):
+    """rename-invariant fingerprint of every local / parameter of func: canonical type, parameter position, and the sorted
+    multiset of syntactic contexts of its uses (parent kind, child slot, callee / operator / member, grand-parent kind).
+    {decl key: (current name, fingerprint)}"""
+    import hashlib
+    uses = {}
+    names = {}
+    tys = {}
+    for i, p_ in enumerate(func.params):
+        k = p_.get("d") or p_["n"]
+        names[k] = p_["n"]
+        tys[k] = "param%d:%s" % (i, (p_.get("ct") or p_.get("ty") or "?"))
+    for n in func.nodes():
+        if n["k"] == "decl":
+            for d in n["decls"]:
+                k = d.get("d") or d["n"]
+                names[k] = d["n"]
+                tys.setdefault(k, "local:%s:%s" % (d.get("ct") or d.get("ty") or "?", (d.get("init") or {}).get("k")))
+        elif n["k"] == "forrange" and n.get("var"):
+            k = n.get("vard") or n["var"]
+            names[k] = n["var"]
+            tys.setdefault(k, "rangevar:%s" % (n.get("varty") or "?"))
+    for n in func.nodes():
+        if n["k"] == "ref" and n.get("dk") in ("local", "parm") and (n.get("d") or n["n"]) in names:
+            par = func.parent(n)
+            gp = func.parent(par) if par is not None else None
+            ctxt = "-"
+            if par is not None:
+                ctxt = "%s/%s/%s/%s" % (par.get("k"), _slot(par, n), par.get("n") or par.get("op") or par.get("callee") or "", gp.get("k") if gp is not None else "")
+            uses.setdefault(n.get("d") or n["n"], []).append(ctxt)
+    out = {}
+    for k, nm in names.items():
+        h = hashlib.sha256(("%s|%s" % (tys.get(k), "|".join(sorted(uses.get(k, []))))).encode()).hexdigest()[:16]
+        out[k] = (nm, h)
+    return out
+
+
+def _rename(func, key, new):
+    for p_ in func.params:
+        if (p_.get("d") or p_["n"]) == key:
+            p_["n"] = new
+    for n in func.nodes():
+        if n["k"] == "ref" and (n.get("d") or n["n"]) == key:
+            n["n"] = new
+        elif n["k"] == "decl":
+            for d in n["decls"]:
+                if (d.get("d") or d["n"]) == key:
+                    d["n"] = new
+        elif n["k"] == "forrange" and (n.get("vard") or n.get("var")) == key:
+            n["var"] = new
+    func._aliases = None
+    if hasattr(func, "_single_defs"):
+        func._single_defs = None
+
+
 def require_names(func, names, rule):
-    """The rules that follow match these identifiers by name. If one is gone the code was renamed or restructured: that is
-    'analysis broken' (exit 2), never a VIOLATION - a rename must not raise an alarm."""
+    """The rules that follow match these identifiers by name. A local or parameter that was merely renamed is recognised by its
+    rename-invariant fingerprint (type + use contexts, table spec/anchors.json generated from the confirmed tree by
+    tools/gen_anchors.py) and given its anchor name back in the in-memory tree. If a name is gone for any other reason the code
+    was restructured: that is 'analysis broken' (exit 2), never a VIOLATION."""
+    global _ANCHOR_TABLE
+    import json
+    import os
+    from ..facts import VERIF
     have = declared_names(func)
+    fkey = "%s@%s" % (func.name, func.file)
+    if os.environ.get("VERIF_RECORD_ANCHORS"):
+        fps = fingerprints(func)
+        byname = {nm: h for (nm, h) in fps.values()}
+        _ANCHOR_RECORD.setdefault(fkey, {}).update({n: byname[n] for n in names if n in byname})
+        with open(os.environ["VERIF_RECORD_ANCHORS"], "a") as fh:
+            fh.write(json.dumps({fkey: {n: byname[n] for n in names if n in byname}}) + "\n")
     missing = [n for n in names if n not in have]
+    if missing:
+        if _ANCHOR_TABLE is None:
+            try:
+                _ANCHOR_TABLE = json.load(open(os.path.join(VERIF, "spec", "anchors.json")))
+            except Exception:
+                _ANCHOR_TABLE = {}
+        tab = _ANCHOR_TABLE.get(fkey, {})
+        fps = fingerprints(func)
+        for n in list(missing):
+            want = tab.get(n)
+            if not want:
+                continue
+            cands = [k for k, (nm, h) in fps.items() if h == want and nm not in names]
+            if len(cands) == 1:
+                _rename(func, cands[0], n)
+                missing.remove(n)
     if missing:
         raise AnalysisBroken("%s: anchor name(s) %s not found in %s (%s) - renamed or restructured; update the anchor table" % (rule, missing, func.name, func.loc()))
 
